@@ -21,6 +21,8 @@ CONSTANTS Classes,     \* subset of {"cbc10", "tls12", "tls13"}
           UploadRounds, UploadSizes, \* k, n: "k times (write n bytes; the receiver sends a KeyUpdate)" as ONE step
           MaxBurst,    \* how many such macro steps per scenario
           DynChoices,  \* subset of BOOLEAN: dynamic record sizing on / off (chosen in Init)
+          HalfOps,     \* subset of {"CW", "WD"}: CloseWrite / a passed write deadline (the side keeps reading)
+          MaxHalf,
           Paths        \* TRUE: the history is part of the state (every path is a scenario)
 
 VARIABLES st, hist, cnt, class, dyn
@@ -33,7 +35,7 @@ Init ==
   /\ st = IF class = "nil" THEN InitForged(ClassProfile("tls12"), FALSE)
           ELSE IF Forged THEN InitForged(WithDyn(ClassProfile(class), dyn), TRUE) ELSE InitLive(WithDyn(ClassProfile(class), dyn))
   /\ hist = <<>>
-  /\ cnt = [w |-> 0, ku |-> 0, mut |-> 0, cl |-> 0, ks |-> 0, b |-> 0]
+  /\ cnt = [w |-> 0, ku |-> 0, mut |-> 0, cl |-> 0, ks |-> 0, b |-> 0, h |-> 0]
 
 \* (\E r \in {e} : ... evaluates e once; TLC re-evaluates a LET definition at every use)
 Step(r, h, c) == r.ok /\ st' = r.s /\ hist' = Append(hist, h) /\ cnt' = c /\ UNCHANGED <<class, dyn>>
@@ -50,16 +52,16 @@ Ends(lst, r, n) == IF lst = <<>> \/ n = 0 THEN FALSE
 ReadUseful(x, k) == ~st.wr[x].closed /\ (k = 0 \/ st.rd[x].buf > 0 \/ (st.rd[x].err = "none" /\ Ends(st.net[Peer(x)], st.rd[x], 256)))
 
 Write(x, n) == /\ cnt.w < MaxW
-               /\ \E r \in {DoWrite(st, x, n, Exact(ModelFrags(st, x, n)))} :
+               /\ \E r \in {DoWrite(st, x, n, IF Usable(st, x) THEN Exact(ModelFrags(st, x, n)) ELSE <<>>)} :
                   Step(r, [op |-> "W", x |-> x, n |-> n], [cnt EXCEPT !.w = @ + 1])
 Read(x, k, al, pk) == /\ ReadUseful(x, k)
                       /\ \E r \in {DoRead(st, x, k, [L |-> 0, alert |-> al, peek |-> pk])} :
                          Step(r, [op |-> "R", x |-> x, k |-> k], cnt)
-KeyUpdate(x, req) == /\ cnt.ku < MaxKU /\ st.q.ku /\ ~st.wr[x].dead /\ ~st.wr[x].closed
+KeyUpdate(x, req) == /\ cnt.ku < MaxKU /\ st.q.ku /\ Usable(st, x)
                      /\ \E r \in {DoKeyUpdate(st, x, req)} :
                         Step(r, [op |-> "KU", x |-> x, req |-> req], [cnt EXCEPT !.ku = @ + 1])
 Close(x) == /\ cnt.cl < MaxClose /\ ~st.wr[x].dead /\ ~st.wr[x].closed
-            /\ \E r \in {DoClose(st, x, TRUE)} : Step(r, [op |-> "C", x |-> x], [cnt EXCEPT !.cl = @ + 1])
+            /\ \E r \in {DoClose(st, x, ~st.wr[x].shut)} : Step(r, [op |-> "C", x |-> x], [cnt EXCEPT !.cl = @ + 1])
 Mutate(x, i) == /\ cnt.mut < MaxMut /\ st.rd[Peer(x)].err = "none"
                 /\ \E r \in {DoMutate(st, x, i)} : Step(r, [op |-> "M", x |-> x, i |-> i], [cnt EXCEPT !.mut = @ + 1])
 Ks(x, n) == /\ cnt.ks < MaxKs /\ ~st.wr[x].dead /\ ~st.wr[x].closed
@@ -74,12 +76,24 @@ RECURSIVE UploadTimes(_, _, _, _, _)
 UploadTimes(s, x, n, req, k) ==
   IF k = 0 THEN s
   ELSE UploadTimes(DoKeyUpdate(DoWrite(s, x, n, Exact(ModelFrags(s, x, n))).s, Peer(x), req).s, x, n, req, k - 1)
-Usable(x) == ~st.wr[x].dead /\ ~st.wr[x].closed
-Burst(x, req, k) == /\ cnt.b < MaxBurst /\ st.q.ku /\ Usable(x)
+\* k x (write n bytes; a KeyUpdate of the same side): data and key updates interleaved, e.g. towards a half-closed peer
+RECURSIVE MixedTimes(_, _, _, _, _)
+MixedTimes(s, x, n, req, k) ==
+  IF k = 0 THEN s
+  ELSE MixedTimes(DoKeyUpdate(DoWrite(s, x, n, Exact(ModelFrags(s, x, n))).s, x, req).s, x, n, req, k - 1)
+Mixed(x, n, req, k) == /\ cnt.b < MaxBurst /\ st.q.ku /\ Usable(st, x)
+                       /\ st' = MixedTimes(st, x, n, req, k)
+                       /\ hist' = Append(hist, [op |-> "UPS", x |-> x, n |-> n, req |-> req, k |-> k])
+                       /\ cnt' = [cnt EXCEPT !.b = @ + 1] /\ UNCHANGED <<class, dyn>>
+CloseWriteOp(x) == /\ "CW" \in HalfOps /\ cnt.h < MaxHalf /\ Usable(st, x)
+                   /\ \E r \in {DoCloseWrite(st, x, TRUE)} : Step(r, [op |-> "CW", x |-> x], [cnt EXCEPT !.h = @ + 1])
+WriteDeadlineOp(x) == /\ "WD" \in HalfOps /\ cnt.h < MaxHalf /\ Usable(st, x)
+                      /\ \E r \in {DoWriteDeadlinePast(st, x)} : Step(r, [op |-> "WD", x |-> x], [cnt EXCEPT !.h = @ + 1])
+Burst(x, req, k) == /\ cnt.b < MaxBurst /\ st.q.ku /\ Usable(st, x)
                     /\ st' = KUTimes(st, x, req, k)
                     /\ hist' = Append(hist, [op |-> "KUB", x |-> x, req |-> req, k |-> k])
                     /\ cnt' = [cnt EXCEPT !.b = @ + 1] /\ UNCHANGED <<class, dyn>>
-Upload(x, n, req, k) == /\ cnt.b < MaxBurst /\ st.q.ku /\ Usable(x) /\ Usable(Peer(x))
+Upload(x, n, req, k) == /\ cnt.b < MaxBurst /\ st.q.ku /\ Usable(st, x) /\ Usable(st, Peer(x))
                         /\ st' = UploadTimes(st, x, n, req, k)
                         /\ hist' = Append(hist, [op |-> "UPL", x |-> x, n |-> n, req |-> req, k |-> k])
                         /\ cnt' = [cnt EXCEPT !.b = @ + 1] /\ UNCHANGED <<class, dyn>>
@@ -99,6 +113,8 @@ Next ==
      \/ \E x \in KsSides, n \in KsSizes : Ks(x, n)
      \/ \E x \in Sides, req \in BOOLEAN, k \in BurstSizes : Burst(x, req, k)
      \/ \E x \in Sides, n \in UploadSizes, req \in BOOLEAN, k \in UploadRounds : Upload(x, n, req, k)
+     \/ \E x \in Sides, n \in UploadSizes, req \in BOOLEAN, k \in UploadRounds : HalfOps # {} /\ Mixed(x, n, req, k)
+     \/ \E x \in Sides : CloseWriteOp(x) \/ WriteDeadlineOp(x)
 
 Spec == Init /\ [][Next]_vars
 
@@ -107,6 +123,7 @@ InvStreamPrefix == StreamPrefix(st)
 InvNothingPastMutation == NothingPastMutation(st)
 InvNoSpuriousError == NoSpuriousError(st)
 InvInSync == InSync(st)
+InvReadsSurvive == ReadsSurviveOwnWriteFailure(st)
 \* a keystream query changes nothing (C28, "pure query")
 PropKsPure == [][(\E x \in KsSides, n \in KsSizes : Ks(x, n)) => st' = st]_vars
 PropSticky == [][Sticky(st, st')]_vars
